@@ -299,7 +299,7 @@ func init() {
 			return strings.Join(ns, " ")
 		case len(f) >= 2 && f[0] == "src1":
 			h := ""
-			if len(f) > 2 {
+			if len(f) > 2 && f[2] != "-" { // "-" = empty source
 				h = f[2]
 			}
 			max := 60
